@@ -632,6 +632,9 @@ pub fn execute_c17(scn: &W4Scn) -> RunOutcome {
             _ => return Ok(()),
         };
         let run_a = momentum_run(scn, false, &mut stats)?;
+        if run_a.len() > 60_000 {
+            stats.probe("history_of_2_16_updates");
+        }
         let eps = 1e-9;
         for (step, (m, p, f, _)) in run_a.iter().enumerate() {
             let bad = |field: &str, exp: String, act: String| {
